@@ -26,6 +26,8 @@ def sh(cmd, cwd=None, timeout=7200, env=None):
 
 
 def props_for(kind, sid, override):
+    if override == ['own']:
+        return [sid.split('-')[0]]
     if override:
         return override
     d = os.path.join(VERIF, kind, sid)
@@ -103,7 +105,9 @@ def main():
     for sid, res in out.items():
         mp = os.path.join(VERIF, kind, sid, 'meta.json')
         meta = json.load(open(mp)) if os.path.exists(mp) else {}
-        if kind == 'benign':
+        if kind == 'benign' and override == ['own']:
+            meta['checks_rerun_final'] = res
+        elif kind == 'benign':
             meta['checks_run'] = res
         else:
             meta.setdefault('detection', {}).update(res)
